@@ -139,6 +139,16 @@ class C08(Check):
                             out.append('%s_FluorLine_Kissel%s %d %d %s E' % (pre, '_' + v if v else '', Z, ln, hx(E)))
                 for fn in ('CS_Total_Kissel', 'CSb_Total_Kissel', 'CS_Photo_Total', 'CSb_Photo_Total'):
                     out.append('%s %d %s E' % (fn, Z, hx(E)))
+        # every line macro of the header (all 383 lines + the group macros + one value on either side) for EVERY element, at the highest
+        # energy of the element's grid (above all its edges), full-cascade variant: the line -> sub-shell map of the code (line_mappings)
+        # is a table of macro ranges; a range that loses its first or last macro shows only for that one macro, and only for the
+        # elements that have a rate for it (seeded change C08-7: M3Q1_LINE, Z = 93..98)
+        if ctx.tier != 'thorough':
+            for Z in range(1, 99):
+                E = max(self.energies(ctx, Z))
+                for sh in range(0, 9): out.append('CS_FluorShell_Kissel_Cascade %d %d %s E' % (Z, sh, hx(E)))     # the oracle's shell values at this (Z, E)
+                for ln in range(4, -386, -1):
+                    out.append('CS_FluorLine_Kissel_Cascade %d %d %s E' % (Z, ln, hx(E)))
         ctx._c08kl = out
         return out
 
@@ -301,14 +311,14 @@ class C08(Check):
             tot = 0.0; ok = True
             if ln in (L['KA'], L['KB'], L['LA']):
                 # one shell: shell value x the GROUP's radiative rate (C10: K-alpha / L-alpha rate = sum of the members, K-beta = complement to one)
-                sv = shellval.get((t[0], t[1], 0 if ln != L['LA'] else 3, t[3]))
+                sv = shellval.get((t[0], t[1], 0 if ln != L['LA'] else 3, t[3]), 'bad')      # no shell value asked at this (Z, E): no claim
                 if sv == 'bad': continue
                 tot = (sv or 0.0) * g('RadRate', int(t[1]), ln)
                 mem = []
             else: mem = sorted(set(members[ln]))
             for mv in mem:
                 if mv not in shell_of: ok = False; break
-                sv = shellval.get((t[0], t[1], shell_of[mv], t[3]))
+                sv = shellval.get((t[0], t[1], shell_of[mv], t[3]), 'bad')
                 if sv == 'bad': ok = False; break
                 tot += (sv or 0.0) * g('RadRate', int(t[1]), mv)
             if not ok: continue
